@@ -153,6 +153,7 @@ func c18Gen(t *rapid.T) C18Case {
 		n = maxN
 	}
 	base := int64(1700000000) * 1e9
+	collide := rapid.IntRange(0, 3).Draw(t, "colliding-label-keys") == 0
 	for i := 0; i < n; i++ {
 		m := rapid.IntRange(0, 8).Draw(t, "lines")
 		var lines []dl.Line
@@ -165,6 +166,13 @@ func c18Gen(t *rapid.T) C18Case {
 		labels := map[string]string{"tier": rapid.SampledFrom([]string{"web", "db"}).Draw(t, "tier")}
 		if rapid.Bool().Draw(t, "env-label") {
 			labels["env"] = rapid.SampledFrom([]string{"prod", "dev"}).Draw(t, "env")
+		}
+		if collide {
+			// Docker label keys that sanitise to the same name, with different values: whichever
+			// value the name gets, it has to be the same one on every run.
+			for _, k := range rapid.SampledFrom([][]string{{"a.b", "a_b"}, {"a.b", "a-b", "a/b"}, {"x y", "x_y"}, {"1st", "_1st"}}).Draw(t, "colliding-keys") {
+				labels[k] = "from " + k
+			}
 		}
 		c.Labels = append(c.Labels, labels)
 	}
